@@ -46,6 +46,15 @@ static int rfc_dec_all(const unsigned char *p, int size, unsigned *cps, int max)
   }
   return pos == size ? n : -1;
 }
+/* copy the first `max` bytes of a result string out through constant indices (the result lives in one
+   of several candidate objects: a constant index keeps each read a small multiplexer), then decode */
+static int dec_result(sexp r, unsigned *cps, int maxch, int maxb) {
+  unsigned char buf[4 * (2 * NCH) + 2];
+  sexp_uint_t size = sexp_string_size(r);
+  for (int k = 0; k < maxb; k++) buf[k] = ((sexp_uint_t)k < size) ? (unsigned char)sexp_string_data(r)[k] : 0;
+  if (size > (sexp_uint_t)maxb) return -1;
+  return rfc_dec_all(buf, (int)size, cps, maxch);
+}
 static int is_scalar(unsigned c) { return c <= 0x10FFFF && !(c >= 0xD800 && c <= 0xDFFF); }
 
 static sexp any_string(unsigned *cps, int *nch) {
@@ -103,14 +112,14 @@ void harness(void) {
   if (i >= 0 && i < n) {
     KIT_ASSERT(r == SEXP_VOID, "string-set! in range succeeds");
     unsigned now[NCH + 2];
-    int m = rfc_dec_all((unsigned char *)sexp_string_data(s), (int)sexp_string_size(s), now, NCH + 1);
+    int m = dec_result(s, now, NCH + 1, MAXB);
     KIT_ASSERT(m == n, "string-set! keeps the length and leaves well-formed UTF-8");
     for (int k = 0; k < NCH; k++) if (k < n) KIT_ASSERT(now[k] == (k == i ? c : cps[k]), "string-set! replaces exactly element i");
     KIT_ASSERT(sexp_string_data(s)[sexp_string_size(s)] == 0 || sexp_string_bytes(s) == sexp_string_bytes(other), "a re-allocated store is NUL terminated");
     if (sexp_string_bytes(s) != sexp_string_bytes(other)) {
       /* width changed: the string moved to a fresh store, strings sharing the old store are untouched */
       unsigned old[NCH + 2];
-      int mo = rfc_dec_all((unsigned char *)sexp_string_data(other), (int)sexp_string_size(other), old, NCH + 1);
+      int mo = dec_result(other, old, NCH + 1, MAXB);
       KIT_ASSERT(mo == n, "a string sharing the old store keeps its length");
       for (int k = 0; k < NCH; k++) if (k < n) KIT_ASSERT(old[k] == cps[k], "a string sharing the old store is unchanged");
     }
@@ -138,7 +147,7 @@ void harness(void) {
   if (a >= 0 && a <= b && b <= n) {
     KIT_ASSERT(sexp_stringp(r), "substring in range returns a string");
     unsigned sub[NCH + 2];
-    int m = rfc_dec_all((unsigned char *)sexp_string_data(r), (int)sexp_string_size(r), sub, NCH + 1);
+    int m = dec_result(r, sub, NCH + 1, MAXB);
     KIT_ASSERT(m == b - a, "substring has end-start scalar values");
     for (int k = 0; k < NCH; k++) if (k < b - a) KIT_ASSERT(sub[k] == cps[a + k], "substring is the slice of the sequence");
     KIT_ASSERT(sexp_string_data(r)[sexp_string_size(r)] == 0, "substring is NUL terminated");
@@ -151,7 +160,7 @@ void harness(void) {
   sexp r = sexp_string_concatenate_op(ctx, SEXP_FALSE, 2, ls, SEXP_FALSE);
   KIT_ASSERT(sexp_stringp(r), "concatenate returns a string");
   unsigned all[2 * NCH + 2];
-  int m = rfc_dec_all((unsigned char *)sexp_string_data(r), (int)sexp_string_size(r), all, 2 * NCH + 1);
+  int m = dec_result(r, all, 2 * NCH + 1, 2 * MAXB);
   KIT_ASSERT(m == n + n2, "concatenation has the sum of the lengths");
   for (int k = 0; k < 2 * NCH; k++) if (k < n + n2) KIT_ASSERT(all[k] == (k < n ? cps[k] : cps2[k - n]), "concatenation is the concatenation of the sequences");
   KIT_ASSERT(sexp_string_data(r)[sexp_string_size(r)] == 0, "concatenation is NUL terminated");
